@@ -68,7 +68,7 @@ func (c07) Rule() string {
 		"systematic: truncation at every offset of small GenBank/FASTA texts (LF and CRLF, single and two-record); every declared LOCUS length 0..n+70 plus n+-60, 10^9, 2^63-1, negative, for ORIGIN blocks of n in {0,1,10,59,60,61,120,133} residues as LF and CRLF; every byte of a minimal record overwritten by 6 values; every mutation operator 24x on each small base; the shapes the statement names (field names wider than the LOCUS indent, DBLINK values `X:`, an unreadable record followed by an intact one); extreme arity and nesting (16k-part joins/orders, 5k-deep complement(/join( nesting closed and unclosed, 16k selector clauses, 5k-deep regexp groups, 60 KiB numbers and quoted values, 32k FASTA records). " +
 		"seeded: 1..3 operators of {truncate, delete/duplicate/swap lines, overwrite a byte, shrink/grow an indent by 1-4, collapse spaces, drop a field value, rewrite the numbers of a line, rewrite the declared length (n+-1, n+-60, 0, 10^9, other), LF<->CRLF of the text or of one line, splice two records, remove `//`, duplicate the ORIGIN block} over the corpus seqio/testdata/*.gb, *.fasta, pBAT5.txt, records written with seqio.GenBank.String() (0..200 residues, 0..4 features, optional DBLINK/REFERENCE/COMMENT/CONTIG/extra fields), FASTA text and 2-3 record streams; raw random bytes; for the string entry points printed values and hand-written seeds under truncate/delete/substitute/insert over the entry point's alphabet, and raw bytes. " +
 		"oracle: no panic, no process death, every Scan loop ends within len(input)+2 iterations, Scan stays false after it returned false, a true Scan has a value with Len() == len(Bytes()) >= 0, <= 30 CPU-s per input (process CPU, best of two runs; a case that has not returned after 45 CPU-s kills the worker and is re-run alone by the parent); a yielded GenBank record whose consumed text has an ORIGIN block must have Len() == the declared LOCUS length == the residues present in that block (class inconsistent-record-accepted), judged only when the simple reader can tell the field structure (no unbalanced quote, escape, colon-less CONTIG or separator inside the consumed text). Whether a mutant is accepted or rejected is otherwise don't-care. " +
-		"non-trivial: a non-empty input; distinct: entry point + FNV-64 and length of the input bytes (the recipe is not part of the key)."
+		"non-trivial: a non-empty input; distinct: entry point + FNV-64 and length of the input bytes (the recipe is not part of the key). Also: 16 fields and sub-fields whose value is white space only (11 widths, LF/CRLF), and scaling probes for the lines of an unquoted qualifier value and for CONTIG lines that name no accession."
 }
 
 func (c07) Assumptions() []string {
@@ -1334,6 +1334,12 @@ func (s *c07State) scaling() {
 		{"lines of a quoted qualifier value", func(n int) string {
 			return fmt.Sprintf(head, 4) + "FEATURES             Location/Qualifiers\n     gene            1..4\n                     /note=\"x\n" + strings.Repeat("                     more\n", n) + "                     end\"\nORIGIN      \n        1 acgt\n//\n"
 		}, 550, ""},
+		{"lines of an unquoted qualifier value", func(n int) string {
+			return fmt.Sprintf(head, 4) + "FEATURES             Location/Qualifiers\n     tRNA            1..4\n                     /anticodon=(pos:1..3,\n" + strings.Repeat("                     seq:aaa,\n", n) + "                     aa:Met)\nORIGIN      \n        1 acgt\n//\n"
+		}, 550, ""},
+		{"CONTIG lines that name no accession", func(n int) string {
+			return fmt.Sprintf(head, 4) + strings.Repeat("CONTIG      join(\n", n) + "ORIGIN      \n        1 acgt\n//\n"
+		}, 600, ""},
 		{"records of a stream", func(n int) string {
 			return strings.Repeat(fmt.Sprintf(head, 4)+"ORIGIN      \n        1 acgt\n//\n", n)
 		}, 150, ""},
@@ -1656,6 +1662,33 @@ func (s *c07State) systematic() {
 				}
 				b.WriteString("ORIGIN\n        1 acgt\n//\n")
 				s.sys(c07Case{entry: "scan", source: "named", recipe: fmt.Sprintf("field name %s (%d columns) under a LOCUS indent of %d, %d padding spaces", f, len(f), sp+5, pad), ops: []string{"indent-shrink"}, input: b.Bytes()})
+			}
+		}
+	}
+	// a field (or sub-field) whose value is nothing but white space, of every
+	// width around the 12-column indent, LF and CRLF.
+	for _, f := range []string{"DEFINITION", "ACCESSION", "VERSION", "DBLINK", "KEYWORDS", "SOURCE", "  ORGANISM", "REFERENCE", "  AUTHORS", "  TITLE", "  JOURNAL", "   PUBMED", "COMMENT", "PRIMARY", "CONTIG", "ORIGIN"} {
+		for _, fill := range []string{"", " ", "  ", "   ", "    ", "      ", "             ", strings.Repeat(" ", 40), "\t", "  \t  ", strings.Repeat(" ", 80)} {
+			for _, crlf := range []bool{false, true} {
+				head := "LOCUS       X 4 bp DNA linear UNA 01-JAN-2020\nDEFINITION  d.\n"
+				if f == "DEFINITION" {
+					head = "LOCUS       X 4 bp DNA linear UNA 01-JAN-2020\n"
+				}
+				if strings.HasPrefix(f, "  ") && f != "  ORGANISM" {
+					head += "REFERENCE   1  (bases 1 to 4)\n"
+				}
+				if f == "  ORGANISM" {
+					head += "SOURCE      s\n"
+				}
+				tail := "ORIGIN      \n        1 acgt\n//\n"
+				if f == "ORIGIN" {
+					tail = "        1 acgt\n//\n"
+				}
+				in := []byte(head + f + fill + "\n" + tail)
+				if crlf {
+					in = gen.C07ToCRLF(in)
+				}
+				s.sys(c07Case{entry: "scan", source: "named", recipe: fmt.Sprintf("field %q followed by %d bytes of white space %q and nothing else, crlf=%v", f, len(fill), fill, crlf), ops: []string{"drop-value"}, input: in})
 			}
 		}
 	}
